@@ -359,7 +359,7 @@ fn store_level(out: &mut Out, shards: usize) {
 
 pub fn run(tier: Tier) -> Report {
     let rep = Report::new("C11", tier);
-    rep.set_rule("fault enumeration: operations {Track::add_observation, Track::merge, store.add, store.merge_external, store.merge_owned (keep / remove source)} x track shapes with 0..3 feature classes x class lists present in both / one / neither / None x history flag x every fault position {none, update apply, attributes merge, optimize of class c, k-th optimize call}; after each: Err => track/store equals its pre-image and no notification, Ok => model state, exactly one notification, history rule. Non-trivial = a fault position that is actually reached (operation fails).");
+    rep.set_rule("fault enumeration: operations {Track::add_observation, Track::merge, store.add, store.merge_external, store.merge_owned (keep / remove source)} x track shapes with 0..3 feature classes x class lists present in both / one / neither / None x history flag x every fault position {none, update apply, attributes merge, optimize of class c, k-th optimize call}; after each: Err => track/store equals its pre-image and no notification, Ok => model state, exactly one notification, history rule. Non-trivial = a fault position that is actually reached (operation fails). Schedule part (shared with C09): a non-blocking merge racing with another store operation, and several merge results outstanding in one store (two futures read in either order, a future dropped unread followed by a blocking or owned merge) - every caller is told the outcome of ITS merge under every schedule within the bound.");
     rep.assume("harness-defined attributes/metric mutate before failing, so a missing rollback is visible; metric state is read through a muted probe on a clone");
     let shard_counts: Vec<usize> = tier.pick(vec![1, 2], vec![1, 2, 3]);
     let result: Arc<Mutex<Vec<Out>>> = Arc::new(Mutex::new(vec![]));
@@ -396,5 +396,6 @@ pub fn run(tier: Tier) -> Report {
     // an add / fetch / duplicate add / clear that races with a non-blocking merge in the store (engine B, shared
     // with C09): a reported success is complete, a failed or pending merge never makes the track disappear
     super::c09::noblock_schedules(&rep, tier);
+    super::c09::noblock_pairs(&rep, tier);
     rep
 }
